@@ -19,7 +19,7 @@ SPEC = dict(
           "regimes present, final-newline variants, BOM?, non-ASCII?, control chars?, pattern kinds, locale) tuples"),
     assumptions=["filler contains no digits/upper-case letters (they could extend a version or form a part name); "
                  "R1 proves every layout unambiguous before the real code runs"],
-    required=["updates_checked", "eol:LF", "eol:CRLF", "eol:CR", "eol:mixed", "locale_subprocess_runs", "bom_files",
+    required=["glob_extra_cases", "updates_checked", "eol:LF", "eol:CRLF", "eol:CR", "eol:mixed", "locale_subprocess_runs", "bom_files",
               "unconfigured_files_checked", "k04_evaluations", "no_final_newline_files", "legacy_updates_checked",
               "overlap_cases"],
     anchors=[("rewrite", "detect_line_sep"), ("v2rewrite", "rfd_from_content"), ("v2rewrite", "rewrite_files"),
@@ -50,6 +50,16 @@ def cases(ctx):
                     for eol in ("\n", "\r\n", "\r"):
                         if ctx.mine(k):
                             yield {"kind": "overlap", "o": oi, "d": di, "order": order, "eol": eol, "rep": rep}
+                        k += 1
+    # a glob entry covering several files plus a further entry that gives ONE of them an extra pattern: the other
+    # files contain text the extra pattern would match, and must keep it (patterns are per file)
+    for rep in range(reps):
+        for oi in range(len(OVERLAP)):
+            for layout in range(4):
+                for legacy in (False, True):
+                    for eol in ("\n", "\r\n", "\r"):
+                        if ctx.mine(k):
+                            yield {"kind": "glob-extra", "o": oi, "layout": layout, "legacy": legacy, "eol": eol, "rep": rep}
                         k += 1
     n = ctx.size(1600, 40000)
     nsub = ctx.size(48, 2400)
@@ -85,6 +95,59 @@ def run_legacy(ctx, case, R, mods):
             ctx.violation("other:unconfigured_file_touched", "unrelated.txt (legacy engine)", observed=proj.describe())
         if not harness.writes_inside(res, d) <= set(proj.file_patterns):
             ctx.violation("other:write_outside_configured_files", f"{sorted(harness.writes_inside(res, d))}", observed=proj.describe())
+    finally:
+        harness.rm_dir(d)
+
+
+GLOB_LEGACY = [("{semver}", "1.9.0", ["--minor"], "1.10.0"), ("{semver}", "9.99.99", ["--major"], "10.0.0"),
+               ("{semver}", "0.9.9", ["--patch"], "0.9.10"),
+               ("{pycalver}", "v201707.0099-beta", ["--tag", "final", "--date", "2017-07-01"], "v201707.0100")]
+
+
+def run_glob_extra(ctx, case):
+    vp, cur, uargs, new = (GLOB_LEGACY if case["legacy"] else OVERLAP)[case["o"]]
+    eol = case["eol"]
+    V = "{version}"
+    base, extra = '__version__ = "' + V + '"', "Release " + V + " notes"
+    body = lambda: eol.join(["# header ünï", f'__version__ = "{cur}"', "", f"Release {cur} notes", f"see {cur} elsewhere", "end"])
+    files = {"pkg/a.py": body(), "pkg/b.py": body(), "pkg/c.py": body()}
+    # layouts: which entries, in which order; `special` = the file that gets the extra pattern
+    special = ["pkg/a.py", "pkg/b.py", "pkg/c.py", "pkg/b.py"][case["layout"]]
+    entries = [("pkg/*.py", [base]), (special, [extra])]
+    if case["layout"] == 3:
+        entries = [("pkg/?.py", [base]), ("pkg/[b].py", [extra])]
+    ini = case["rep"] % 2 == 1
+    if ini:
+        cfg = (f"[bumpver]\ncurrent_version = {cur}\nversion_pattern = {vp}\n\n[bumpver:file_patterns]\n"
+               "setup.cfg =\n    current_version = {version}\n"
+               + "".join(f"{k} =\n" + "".join(f"    {x}\n" for x in v) for k, v in entries))
+        cfg_name = "setup.cfg"
+    else:
+        cfg = (f'[bumpver]\ncurrent_version = "{cur}"\nversion_pattern = "{vp}"\n\n[bumpver.file_patterns]\n'
+               '"bumpver.toml" = [\'current_version = "{version}"\']\n'
+               + "".join(f'"{k}" = [' + ", ".join(projects.toml_str(x) for x in v) + "]\n" for k, v in entries))
+        cfg_name = "bumpver.toml"
+    enc = {k: v.encode("utf-8") for k, v in files.items()}
+    enc[cfg_name] = cfg.encode()
+    d = harness.new_project(enc)
+    try:
+        res = harness.invoke(["update", "--no-fetch"] + uargs, cwd=d)
+        after = harness.snapshot(d)
+        ctx.count("glob_extra_cases")
+        ctx.evaluated(("glob-extra", vp, case["layout"], eol, ini), sample={"entries": entries, "argv": res.args})
+        if res.exit_code != 0 or res.record_value("New Version: ") != new:
+            ctx.violation("other:glob_extra_update_failed", f"entries {entries}: exit {res.exit_code}, announced "
+                          f"{res.record_value('New Version: ')!r} (expected {new!r}): {res.errors()[-2:]} {res.crash or ''}",
+                          case=case)
+            return
+        for fn, t in files.items():
+            want = t.replace(f'__version__ = "{cur}"', f'__version__ = "{new}"')
+            if fn == special:
+                want = want.replace(f"Release {cur} notes", f"Release {new} notes")
+            if after[fn] != want.encode("utf-8"):
+                ctx.violation("other:pattern_of_one_file_applied_to_another", f"entries {entries}: {fn} expected "
+                              f"{want!r}, got {after[fn]!r}", case=case)
+                break
     finally:
         harness.rm_dir(d)
 
@@ -127,6 +190,8 @@ def run_overlap(ctx, case):
 def run_case(ctx, case):
     if case.get("kind") == "overlap":
         return run_overlap(ctx, case)
+    if case.get("kind") == "glob-extra":
+        return run_glob_extra(ctx, case)
     R = random.Random(case["pseed"])
     mods = updates.bvmods()
     contracts.install_k04()
